@@ -539,12 +539,19 @@ def putChained (d : Disk) (sc acct br idx : Nat) : Option Disk :=
     some (d.updScope sc fun s =>
       { s with addrs := aset s.addrs (.chain acct br idx) .chain, accts := aset s.accts acct row' })
 
+/-- what a FAILING `putChainedAddress` leaves in the open transaction: `putAddress` has already written the address
+row when the account row turns out to be missing (`deserializeAccountRow` of a nil value).  Only reachable with an
+account that lives in the `acctInfo` cache but not in the database (created in a bracket that did not commit); the
+orphan row survives when the caller commits the bracket in spite of the error. -/
+def putOrphan (d : Disk) (sc acct br idx : Nat) : Disk :=
+  d.updScope sc fun s => { s with addrs := aset s.addrs (.chain acct br idx) .chain }
+
 /-- the write-and-read-back loop of `nextAddresses` -/
 def putAndLoad (sc : Nat) : List Dou → Disk → Mem → Disk × Mem × Option Err
   | [], d, m => (d, m, none)
   | e :: es, d, m =>
     match putChained d sc e.acct e.br e.idx with
-    | none => (d, m, some .database)
+    | none => (putOrphan d sc e.acct e.br e.idx, m, some .database)
     | some d1 =>
       match loadAndCache d1 m sc (.chain e.acct e.br e.idx) with
       | .error err => (d1, m, some err)
@@ -556,6 +563,15 @@ def putAll (sc : Nat) : List Dou → Disk → Option Disk
     match putChained d sc e.acct e.br e.idx with
     | none => none
     | some d1 => putAll sc es d1
+
+/-- the transaction's view after the write loop of `extendAddresses` failed (`putAll … = none`): the rows written
+before the failing `putChainedAddress`, plus its orphan address row -/
+def putAllFail (sc : Nat) : List Dou → Disk → Disk
+  | [], d => d
+  | e :: es, d =>
+    match putChained d sc e.acct e.br e.idx with
+    | none => putOrphan d sc e.acct e.br e.idx
+    | some d1 => putAllFail sc es d1
 
 structure NextOut where
   disk : Disk
@@ -618,7 +634,7 @@ def extendAddresses (cfg : Cfg) (d : Disk) (m : Mem) (sc acct lastIdx : Nat) (in
       else
         let r := mkAddrs m1 acct br priv nextIndex (lastIdx + 1 - nextIndex)
         match putAll sc r.2 d with
-        | none => (d, r.1, some .database)
+        | none => (putAllFail sc r.2 d, r.1, some .database)
         | some d2 =>
           let m2 := r.2.foldl (cacheNew sc watchOnly) r.1
           match r.2.getLast? with
